@@ -19,7 +19,7 @@ DEFAULT = {
 }
 
 ERRS = ['ValueError', 'RuntimeError', 'TypeError', 'ZeroDivisionError', 'vfail.CustomError',
-        'pypyr.errors.ContextError']
+        'pypyr.errors.ContextError', 'vfail.InnerError']
 HALF = {'f': [1, 2]}
 DICT_IN_KEYS = ['flag', 'nflag', 'sflag', 'n', 'lst', 'empty', 'cnt', 'grp', 'word', 'tup']
 
@@ -206,6 +206,10 @@ def gen_step(rng, p, pipe, group, idx, targets, handlers, later_pipes, depth_tag
         loops.append('foreach')
     if rng.random() < p['p_retry']:
         st['retry'] = gen_retry(rng)
+        if body in ('stop', 'stoppipeline', 'stopstepgroup') and rng.random() < 0.6:
+            # an unbounded retry: safe here, the body can only issue its instruction (never retried)
+            st['retry'] = {k: v for k, v in st['retry'].items() if k != 'max'}
+            st['retry'].setdefault('sleep', 0)
         loops.append('retry')
     if rng.random() < p['p_run']:
         st['run'] = gen_bool_expr(rng, loops)
@@ -356,6 +360,8 @@ def gen_case(rng, profile=None):
                ['bo', rng.choice(['fixed', 'linear'])], ['mlist', {'l': [0]}],
                ['nl', rng.choice(['true\n', '1\n', 'True\n', '1.0\n', 'false\n'])]]
     case = {'lib': lib, 'main': 'main', 'dict_in': dict_in, 'jit': rng.choice([[1, 4], [0, 1], [1, 1], [1, 2]])}
+    if rng.random() < 0.06:
+        case['flow'] = True         # the pipeline file written on one line, flow style
     if rng.random() < 0.04:
         case['dict_in'] = None
     if rng.random() < 0.12:
@@ -438,6 +444,33 @@ def shared_failure_handler(rng, case):
     steps.append({'body': 'probe', 'in': [['ptag', 'main/steps/after']]})
     case['lib'][0][1] = [['steps', steps]] + keep + [['shg', failing], ['shf', handler],
                                                     ['gz', [{'body': 'probe', 'in': [['ptag', 'main/gz/0']]}]]]
+    case.pop('groups', None)
+    return case
+
+
+def recursive_call(rng, case):
+    """a group that calls ITSELF from a looping step, to a fixed depth (a depth counter goes up on entry
+    and down on exit, so every iteration of every level recurses again): every activation of the
+    calling step keeps its own loop counters, restored when the nested call returns."""
+    groups = [gs for gs in case['lib'][0][1] if gs[0] not in ('steps', 'rec', 'gz')]
+    depth = rng.choice([2, 3, 3])
+    loop = rng.choice(['foreach+while', 'foreach+while', 'foreach+retry', 'while', 'foreach'])
+    rcall = {'body': 'call', 'in': [['ptag', 'main/rec/2'], ['call', 'rec']],
+             'run': py(['cmp', 'lt', name('cnt'), ['int', depth]])}
+    if 'foreach' in loop:
+        rcall['foreach'] = {'l': rng.choice([['x', 'y'], [1, 2]])}
+    if 'while' in loop:
+        rcall['while'] = {'max': 2}
+    if 'retry' in loop:
+        rcall['retry'] = {'max': 2}
+    rec = [{'body': 'set', 'in': [['ptag', 'main/rec/0'], ['set', {'d': [['cnt', py(['add', name('cnt'), ['int', 1]])]]}]]},
+           {'body': 'probe', 'in': [['ptag', 'main/rec/1'], ['pwatch', {'l': ['cnt']}]]},
+           rcall,
+           {'body': 'set', 'in': [['ptag', 'main/rec/3'], ['set', {'d': [['cnt', py(['sub', name('cnt'), ['int', 1]])]]}]]}]
+    top = {'body': 'call', 'in': [['ptag', 'main/steps/0'], ['call', 'rec']]}
+    case['lib'][0][1] = [['steps', [top, {'body': 'probe', 'in': [['ptag', 'main/steps/after'],
+                                                               ['pwatch', {'l': ['cnt', 'i']}]]}]]] + groups + \
+        [['rec', rec], ['gz', [{'body': 'probe', 'in': [['ptag', 'main/gz/0']]}]]]
     case.pop('groups', None)
     return case
 
